@@ -75,7 +75,10 @@ impl ChessMove {
                 Square::make_square(rank, dest_file),
                 None,
             );
-            if MoveGen::new_legal(&board).any(|l| l == m) {
+            // the move e1g1 (or e1c1, ...) is castling only if it is the king that makes it
+            if board.piece_on(m.get_source()) == Some(Piece::King)
+                && MoveGen::new_legal(&board).any(|l| l == m)
+            {
                 return Ok(m);
             } else {
                 return Err(Error::InvalidSanMove);
